@@ -169,6 +169,6 @@ Example signal_example :
   /\ interleave 6 chans = [10; -3; 12; 4; 15; 0; 11; 9; 8; 0; -6; 0].
 Proof.
   cbv zeta. split; [reflexivity|]. split; [reflexivity|]. split; [|reflexivity].
-  unfold valid_items, pred_ok, sample_ok, bnd, B16, next_chan, sumabs; simpl.
+  unfold valid_items, gvalid_items, gpred_ok, sample_ok, bnd, B16, next_chan, sumabs; simpl.
   repeat split; try lia; repeat constructor; try lia; try reflexivity.
 Qed.
